@@ -2,6 +2,7 @@
 C12 — every JSON value is accepted and round-trips exactly.
 -/
 import SC.Props.C11
+import SC.Lemmas.Merge
 namespace SC.Props
 open SC Tr
 
@@ -44,6 +45,22 @@ content — same structure, same key order, the same scalar (constructor and pay
 every leaf.  Unbounded depth and width. -/
 theorem C12_roundtrip_fromBase (v : Tr ι) (n : Nat) : (fromBase v n).1.toBase = v.toBase :=
   toBase_fromBase v n
+
+/-- C12, the merge-based entry points (`update`, `reset`, and every reload): what ends up in the
+tree is the value that was stored, with the SAME scalar constructor at every leaf — `1`, `True`
+and `1.0` are different leaves of `Eqv` — for every value with unique keys, over any previous
+content. -/
+theorem C12_roundtrip_merge (fam : Fam) (v : Tr ι) (t : T) (n : Nat) (hv : v.wf = true) (ht : t.wf = true)
+    (hnn : v ≠ .leaf .null) (herr : (updNode fam t v n).err = none) :
+    Eqv (updNode fam t v n).val v :=
+  (updNode_post fam v t n hv ht hnn herr).1
+
+/-- the merge of `True` over an in-memory `1` really replaces the leaf (the defect that was fixed) -/
+example :
+    let fam : Fam := ⟨[.requireStringKey, .jsonFormat], [.requireStringKey, .jsonFormat]⟩
+    Tr.same (updNode fam (.dict 0 [(.s "x", .leaf (.int 1))]) (.dict () [(.s "x", .leaf (.bool true))] : J) 1).val
+      (.dict () [(.s "x", .leaf (.bool true))] : J) = true := by
+  decide
 
 /-- non-vacuity: a nested value with colliding scalars meets the hypotheses -/
 example : clean false (Tr.dict () [(.s "a", .list () [.leaf (.int 1), .leaf (.bool true),
